@@ -251,6 +251,6 @@ def cli_cases(draw):
 
 
 def subs(tier):
-    return [Sub("zeroamp", zero_cases(), run_zero, quick=3200, thorough=30000),
-            Sub("recorded", recorded_cases(), run_recorded, quick=2800, thorough=30000),
-            Sub("cli", cli_cases(), run_cli, quick=192, thorough=600, needs=("rel", "h5x", "shim"), shrink_budget=20)]
+    return [Sub("zeroamp", zero_cases(), run_zero, quick=3200, thorough=250000),
+            Sub("recorded", recorded_cases(), run_recorded, quick=2800, thorough=250000),
+            Sub("cli", cli_cases(), run_cli, quick=192, thorough=3000, needs=("rel", "h5x", "shim"), shrink_budget=20)]
